@@ -62,6 +62,27 @@ add("C19", "exhaustive enumeration of trees over the optional-field presence pro
     "Every parse-stage and validated tree of the C02 document space, of the full presence product of optional fields (with empty / multi-paragraph / non-ASCII / CRLF documentation) and of a multi-file project reaching every TypeKind is serialised with ron and read back; equality with the original is required.",
     "trusted: ron 0.7, serde_json (triage only)", "DESIGN.md section 4, C19")
 
+add("C01", "bounded-exhaustive input-shape exploration (character trees, token-sequence trees, edits, nasty fillers in every gap, parametric families, project assignments) in a supervised child process",
+    "Every atom string up to length 3-5 in 7 character frames, every token sequence up to length 2 (thorough 3) in 14 frames, every single token edit of six seeds, every nasty filler in every token gap (thorough: pairs of gaps on the small seeds), nesting depth 0..64, sizes by doubling to 16 KiB (thorough 64 KiB), every assignment of 5 contents to <= 4 (thorough 6) ids, and an import x type-name soup are fed to add_content + validate under catch_unwind; the exploring process is supervised so that aborts, stack overflows and hangs are attributed to the case in flight. Oracle: returns, key set = id set, tags.",
+    "trusted: wall-clock limits separate slow from hanging (120 s; 900 s for the size families); bounds: alphabets, lengths, depth 64, 64 KiB",
+    "DESIGN.md section 4, C01")
+add("C11", "exhaustive exploration of environment answers (hash-iteration orders) with owned seeds and a closure certificate, x insertion orders x histories x repeated calls",
+    "12 colliding projects x insertion orders (quick 6, thorough all 24) x plain / replace histories x base keys of fresh threads x repeated validate() calls; std's hash seeds are owned through an LD_PRELOAD getrandom shim, and seeds are enumerated until every hash container of <= 4 elements has been observed (hook H3) in all its iteration orders at every site (evidence lists observed / possible per site). All outputs of a project must be equal (trees by ==, diagnostic vectors element-wise) and every file's diagnostics ascending in (line, column). One recorded finding (one key registered with two kinds).",
+    "trusted: getrandom shim (self-tested each run), hook H3 observers; thread schedules are not explored (no synchronisation operations in the library)",
+    "DESIGN.md section 4, C11")
+add("C12", "explicit-state exploration of operation histories on the live Parser (cloned per branch) against a fresh parser built from the abstract id -> content map",
+    "Full history trees from the empty parser (alphabet A: 23 operations to depth 3 / 4; alphabet B: 11 operations to depth 4 / 6) and all suffixes of length 2 / 3 from every one of 165 reachable abstract states; after every transition validate() of the live object must equal validate() of a fresh parser holding the abstract map, and add_file must fail exactly when the model says so.",
+    "trusted: hook H4 (derived Clone) for branching - every violation is re-confirmed by a from-scratch replay without clones; abstract states with one key in two kinds are pruned (C11)",
+    "DESIGN.md section 4, C12")
+add("C13", "explicit-state exploration of (observed file, project) states under single-file perturbations of the live parser, differential oracle",
+    "4 observed files x every set of <= 2 (thorough 3) of 18 other files x every single-file perturbation (add / drop / swap / replace in place) applied to the already validated live parser; all observations with equal (observed text, per-import registered?/kind) must be equal; kind changes must be observable (negative control).",
+    "trusted: hook H4 (Clone); violations re-confirmed by replaying both plain histories; projects with one key in two kinds excluded (C11)",
+    "DESIGN.md section 4, C13")
+add("C14", "bounded-exhaustive token-string exploration of malformed members in member frames against sibling-preservation and locality oracles",
+    "Item kind (3) x position (first / middle / last) x every token string of length <= 2 (middle position 3; thorough 3 / 4) over the vocabulary minus terminators and braces, plus all fused pairs of well-formed members, kept when the Earley recogniser says the string is not a member and is detectably dead by its terminator; oracle: tree present, siblings intact in order, >= 1 syntax Error, every syntax diagnostic inside the malformed member's extent.",
+    "trusted: CFG transcription + Earley recogniser for membership, token table for the extent, hook H1",
+    "DESIGN.md section 4, C14")
+
 NOT_APPLICABLE = {}
 
 def main():
